@@ -804,7 +804,7 @@ class HtpasswdFile(_CommonFile):
         if ok and new_hash is not None:
             # rehash user's password if old hash was deprecated
             assert user in self._records  # otherwise would have to use ._set_record()
-            self._records[user] = new_hash
+            self._records[user] = self._encode_hash(new_hash)
             self._autosave()
         return ok
 
